@@ -34,7 +34,7 @@ def have_std() -> bool:
 def header(g=True) -> str:
     h = HEADER
     if have_std():
-        h += 'From PT Require Import Lang.WriteStd Lang.ParseStd Lang.Whitespace Lang.WhitespaceStd Lang.StdDenotes.\nFrom Coq Require Import Lia.\n'
+        h += 'From PT Require Import Lang.WriteStd Lang.ParseStd Lang.Whitespace Lang.WhitespaceStd Lang.StdDenotes Lang.StdRoundTrip.\nFrom Coq Require Import Lia.\n'
     return h + ('Require Import GC12.Tables.\n' if g else '')
 
 
@@ -232,6 +232,29 @@ def agree_obligations(chk: Check, tb: dict) -> None:
             chk.violation('standard:denotes-side-conditions', 'side conditions of C12_standard_denotes fail on the regenerated '
                           f'standard parse table (alphabet agree_b={dok[0]}, paren characters={dok[1]}, table_ok={wans[1]})',
                           dict(kind='obligation', obligation='agree_b standard_table std_rev_w / parens'), found_input=False)
+        # standard text/ascii writer composed with the standard parser (plain fragment): side condition of
+        # C12_standard_roundtrip_plain / C12_write_standard_injective_plain on the regenerated tables
+        global STD_RT_APPLIES
+        STD_RT_APPLIES = False
+        try:
+            find_strings(tb, 'standard', 'text', 'ascii')
+            ref = pl.Ref(tb['parse']['standard'])
+            ex = ord(ref.sym('System', 'Existence'))
+            rt_expr = f'std_agree_b standard_table (patch_exist w_standard_text_ascii (Some [{ex}]%N)) std_opts'
+            rans = [a.strip() == 'true' for a in pl.eval_bools(PID, header(), [rt_expr, 'table_ok standard_table'], name='StatusRT')]
+        except pl.Inexpressible:
+            rans = None
+        if rans is not None:
+            chk.obligation('standard-ascii:writer-agree_b', rans[0])
+            if all(rans):
+                STD_RT_APPLIES = True
+                a, b = ord(ref.sym('Constant', 0)), ord(ref.sym('Constant', 1))
+                ob.append(RT_STD % dict(ex=ex, a=a, b=b))
+            else:
+                chk.violation('standard-ascii:roundtrip-side-conditions', 'side condition of C12_write_standard_injective_plain '
+                              f'fails on the regenerated tables ({rt_expr} = {rans[0]}, table_ok = {rans[1]}): injectivity of the '
+                              'standard ASCII writer is no longer proved (collisions are searched per table below)',
+                              dict(kind='obligation', obligation=rt_expr), found_input=False)
     write_if_changed(g / 'Obl.v', '\n'.join(ob))
     rc, out = coqc(g / 'Obl.v')
     if rc:
@@ -310,6 +333,28 @@ Proof.
   - apply (Rs_infix _ _ _ (PSys Identity) (Const 0 0) [Const 1 0] [%(a)d]%%N [%(eq)d]%%N [%(b)d]%%N); try reflexivity.
     all: try (cbn; lia).
 Qed.
+'''
+
+STD_RT_APPLIES = False
+
+RT_STD = '''
+Lemma obl_std_writer_agree : std_agree_b standard_table (patch_exist w_standard_text_ascii (Some [%(ex)d]%%N)) std_opts = true.
+Proof. vm_compute. reflexivity. Qed.
+Theorem C12_standard_ascii_roundtrip : forall s, roundtrippable s = true -> std_plain s = true ->
+  exists w, write_std w_standard_text_ascii s = Some w /\\
+            parse_std_opts (cfg_of standard_table false) std_opts (decls s) w = (OK s, decls s) /\\
+            parse_std_opts (cfg_of standard_table true) std_opts [] w = (OK s, decls s).
+Proof. exact (C12_standard_roundtrip_plain standard_table w_standard_text_ascii std_opts _ obl_standard_table_ok obl_std_writer_agree). Qed.
+Theorem C12_standard_ascii_injective : forall s1 s2 w, roundtrippable s1 = true -> std_plain s1 = true ->
+  roundtrippable s2 = true -> std_plain s2 = true ->
+  write_std w_standard_text_ascii s1 = Some w -> write_std w_standard_text_ascii s2 = Some w -> s1 = s2.
+Proof. exact (C12_write_standard_injective_plain standard_table w_standard_text_ascii std_opts _ obl_standard_table_ok obl_std_writer_agree). Qed.
+(* outside the plain fragment the writer's output is NOT read back by the parser (model level; the
+   implementation agrees, see the standard_ascii_writer_to_parser counts): ~ a = b is written "a != b" *)
+Example C12_standard_negid_not_roundtrip :
+  exists w, write_std w_standard_text_ascii (Un Negation (Pred (PSys Identity) [Const 0 0; Const 1 0])) = Some w /\\
+            fst (parse_std_opts (cfg_of standard_table true) std_opts [] w) = PErr PEParse.
+Proof. eexists. split; [vm_compute; reflexivity | vm_compute; reflexivity]. Qed.
 '''
 
 ARG_INSTANCE = '''
@@ -410,7 +455,10 @@ def _run(chk, args) -> int:
                     'C12_parse_polish_ws', 'C12_parse_std_ws', 'C12_standard_denotes',
                     'gen: C12_polish_whitespace', 'gen: C12_standard_whitespace', 'gen: C12_standard_denotes_inst',
                     'gen: C12_polish_ascii_roundtrip', 'gen: C12_polish_ascii_injective',
-                    'gen: C12_polish_argstr_roundtrip']
+                    'gen: C12_polish_argstr_roundtrip',
+                    'C12_standard_roundtrip_plain', 'C12_write_standard_injective_plain',
+                    'gen: C12_standard_ascii_roundtrip', 'gen: C12_standard_ascii_injective',
+                    'gen: C12_standard_negid_not_roundtrip']
     rng = random.Random(args.seed)
     sents = []
     seen = set()
@@ -565,6 +613,12 @@ def all_tables_cases(chk: Check, tb, sample):
                 ok = got == 'OK ' + ser
                 feats = ('existence' if 'Et(' in ser else '') + ('+neg-identity' if 'Ne[Id(' in ser else '')
                 chk.count('standard_ascii_writer_to_parser(observation)', ('ok' if ok else 'fails') + (':' + feats if feats else ''))
+                if not feats and STD_RT_APPLIES and (not ok or r.get('parsed_declared', got) != 'OK ' + ser):
+                    # the theorem C12_standard_ascii_roundtrip covers this sentence: the models round-trip, so the
+                    # implementation differs from a model here (and the injectivity proof no longer speaks for it)
+                    chk.violation(f'{tkey}:plain-roundtrip', f'standard ASCII rendering {render_cps(r_w)!r} of the plain sentence '
+                                  f'{ser} parses to {got!r} / {r.get("parsed_declared")!r} (C12_standard_ascii_roundtrip says it '
+                                  'parses back to the sentence)', dict(rep, expect='OK ' + ser))
                 if not ok and not feats:
                     chk.notes.setdefault('standard_ascii_roundtrip_other_failures', []).append(
                         dict(sentence=ser, written=render_cps(r_w), parsed=got))
